@@ -622,3 +622,20 @@ func specEEHex(c byte) bool {
 //@ loop 2 back-when [C06.callsubr.enter] opIs(prev(code), 10) && prev(len(stack)) >= 1 && prev(stack[len(stack)-1]) != 3 ==> (forall idx int :: float64(idx) == prev(stack[len(stack)-1]) ==> 0 <= idx && idx < len(info.subrs) && sameslice(code, info.subrs[idx])) && len(cmdStack) == prev(len(cmdStack)) + 1 && ref(cmdStack[len(cmdStack)-1]) == prev(ref(code)) && off(cmdStack[len(cmdStack)-1]) == prev(off(code)) + 1 && len(cmdStack[len(cmdStack)-1]) == prev(len(code)) - 1 && (forall k :: 0 <= k && k < prev(len(cmdStack)) ==> sameslice(cmdStack[k], prev(cmdStack[k])))
 //@ loop 2 exit-when [C06.seac] len(info.seacs) == prev(len(info.seacs)) || (escIs(prev(code), 6) && prev(len(stack)) >= 5 && len(info.seacs) == prev(len(info.seacs)) + 1 && info.seacs[len(info.seacs)-1].name == name && info.seacs[len(info.seacs)-1].dx == prev(stack[1]) && info.seacs[len(info.seacs)-1].dy == prev(stack[2]) && float64(info.seacs[len(info.seacs)-1].base) == prev(stack[3]) && float64(info.seacs[len(info.seacs)-1].accent) == prev(stack[4]) && (forall k :: 0 <= k && k < prev(len(info.seacs)) ==> info.seacs[k] == prev(info.seacs[k])))
 //@ loop 2 back-when [C06.seac.only] len(info.seacs) == prev(len(info.seacs))
+
+// C06, seac assembly (Type 1 book 6.4): bchar and achar are character codes of
+// the StandardEncoding vector, whatever the font's own encoding is.  When both
+// glyphs exist the accented character gets the advance width of its base
+// glyph, and the accent's outline -- including its closepath commands -- is
+// appended to the base outline.
+func specStdName(code int) string {
+	return psenc.StandardEncoding[code]
+}
+
+//@ define seacStd(s, glyphs) = 0 <= s.base && s.base < 256 && 0 <= s.accent && s.accent < 256 && glyphs[specStdName(s.base)] != nil && glyphs[specStdName(s.accent)] != nil
+//@ func Read
+//@ loop 10 back-when [C06.seac.standard] prev(seacStd(ctx.seacs[rangeidx], glyphs)) ==> glyphs[prev(ctx.seacs[rangeidx].name)] != nil && glyphs[prev(ctx.seacs[rangeidx].name)].WidthX == prev(glyphs[specStdName(ctx.seacs[rangeidx].base)].WidthX)
+//@ loop 11 back-when [C06.seac.accent.closepath] cmd.Op == OpClosePath ==> len(g.Cmds) == prev(len(g.Cmds)) + 1 && g.Cmds[len(g.Cmds)-1].Op == OpClosePath
+//@ loop 11 back-when [C06.seac.accent.moveto] cmd.Op == OpMoveTo ==> len(g.Cmds) == prev(len(g.Cmds)) + 1 && g.Cmds[len(g.Cmds)-1].Op == OpMoveTo
+//@ loop 11 back-when [C06.seac.accent.lineto] cmd.Op == OpLineTo ==> len(g.Cmds) == prev(len(g.Cmds)) + 1 && g.Cmds[len(g.Cmds)-1].Op == OpLineTo
+//@ loop 11 back-when [C06.seac.accent.curveto] cmd.Op == OpCurveTo ==> len(g.Cmds) == prev(len(g.Cmds)) + 1 && g.Cmds[len(g.Cmds)-1].Op == OpCurveTo
